@@ -95,6 +95,31 @@ def check_sym(P, t, xs, v):
         out['selfsim_' + n] = float(np.max(np.abs(A[n] - S2[n]) / sc))
     return out
 
+def check_sym_gen(P, t, xs, v):
+    # general-EOS driver: it interpolates its own 10001-point grid, so every discontinuity is smeared over one grid cell;
+    # points within BAND of a wave position of any of the three runs are left out
+    band = 20 * (P['xmax'] - P['xmin']) / 10000.0
+    xs = np.array(xs, dtype=float)
+    A, sa = solve(P, xs, t, 'gen')
+    Pm = dict(P, pl=P['pr'], rl=P['rr'], ul=-P['ur'], gl=P['gr'], pr=P['pl'], rr=P['rl'], ur=-P['ul'], gr=P['gl'])
+    Pm['xd0'] = -P['xd0']; Pm['xmin'], Pm['xmax'] = -P['xmax'], -P['xmin']
+    M, sm = solve(Pm, -xs, t, 'gen')
+    Pb = dict(P, ul=P['ul'] + v, ur=P['ur'] + v)
+    Bs, sb = solve(Pb, xs + v * t, t, 'gen')
+    wa = P['xd0'] + t * np.asarray(sa.Vregs, dtype=float)
+    wm = -(Pm['xd0'] + t * np.asarray(sm.Vregs, dtype=float))
+    wb = P['xd0'] + t * np.asarray(sb.Vregs, dtype=float) - v * t
+    keep = np.ones(len(xs), bool)
+    for w in list(wa) + list(wm) + list(wb) + [P['xd0']]:
+        keep &= np.abs(xs - w) > band
+    out = {'pattern': sa.soln_type, 'points_kept': int(keep.sum())}
+    for n in F:
+        sgn = -1.0 if n == 'velocity' else 1.0
+        sc = np.max(np.abs(A[n])) + 1e-3 + (abs(v) if n == 'velocity' else 0)
+        out['mirror_' + n] = float(np.max(np.abs(A[n] - sgn * M[n])[keep]) / sc) if keep.any() else 0.0
+        out['boost_' + n] = float(np.max(np.abs(A[n] + (v if n == 'velocity' else 0) - Bs[n])[keep]) / sc) if keep.any() else 0.0
+    return out
+
 def main(payload):
     res = []
     for c in payload:
@@ -105,6 +130,8 @@ def main(payload):
                 res.append(check_conservation(c['params'], c['t'], c.get('kind', 'ig')))
             elif c['what'] == 'sym':
                 res.append(check_sym(c['params'], c['t'], c['xs'], c['v']))
+            elif c['what'] == 'symgen':
+                res.append(check_sym_gen(c['params'], c['t'], c['xs'], c['v']))
         except Exception as ex:
             res.append({'error': type(ex).__name__ + ': ' + str(ex)[:300]})
     return res
@@ -171,3 +198,34 @@ def sym_oracle(which):
                               'max_relative_difference': bad})
         return fails
     return oracle
+
+
+def gen_sym_oracle(rng, tier, reasons, thresh=1e-4):
+    """mirror and Galilean symmetry of the general-EOS driver (GenEOS_Solver) on ideal-gas data, every wave pattern, moving contacts"""
+    n = 6 if tier == 'quick' else 40
+    cases = []
+    # the driver interpolates linearly on its own grid (cell 4e-4): inside a narrow fan the interpolation error, which differs between a
+    # problem and its boosted image, reaches ~1e-6 of the field size; thresh is well above that and far below a misplaced region
+    kinds = ['expand', 'sod', 'expand', 'collide', 'any', 'expand']
+    for i in range(n):
+        P = RC.sample_problem(rng)
+        k = kinds[i % 6]
+        if k == 'expand':       # rarefaction-contact-rarefaction with a moving contact and unequal star densities
+            P.update(pr=float('%.4g' % (P['pl'] * rng.uniform(0.6, 1.6))), ul=-round(rng.uniform(0.3, 0.9), 4), ur=round(rng.uniform(0.3, 0.9), 4))
+        elif k == 'sod':
+            P.update(pl=1.0, pr=0.1, ul=round(rng.uniform(-0.3, 0.3), 4), ur=round(rng.uniform(-0.3, 0.3), 4))
+        elif k == 'collide':
+            P.update(ul=round(rng.uniform(0.5, 1.5), 4), ur=-round(rng.uniform(0.5, 1.5), 4))
+        t = round(rng.uniform(0.1, 0.3), 4)
+        xs = [round(P['xd0'] - 0.9 + 1.8 * (j + rng.random()) / 90, 5) for j in range(90)]
+        cases.append({'what': 'symgen', 'params': P, 't': t, 'xs': xs, 'v': round(rng.choice([-1, 1]) * rng.uniform(0.3, 1.2), 3)})
+    res = H.run_real(SCRIPT, cases, timeout=3000)
+    fails = []
+    for c, o in zip(cases, res):
+        if 'error' in o:
+            continue
+        bad = {k_: v_ for k_, v_ in o.items() if k_.split('_')[0] in ('mirror', 'boost') and v_ > thresh}
+        if bad:
+            fails.append({'solver': 'GenEOS_Solver', 'params': c['params'], 't': c['t'], 'points': c['xs'], 'boost': c['v'], 'pattern': o.get('pattern'),
+                          'max_difference_relative_to_field_size': bad})
+    return fails
